@@ -121,6 +121,30 @@ def _mk(which, **opts):
     return pre
 
 
+def geometry_reassignment(c):
+    """history: the transposed model is read, the model's geometries are reassigned (public attributes), the transposed model is read again"""
+    L = c.mat('L', 2, 2); R = c.mat('R', 2, 2)
+    fwd = lambda X: L @ X @ R; adj = lambda Y: L.T @ Y @ R.T            # adjoint pair on 2x2 images, independent of the vectorisation order
+    gC = lambda: cuqi.geometry.Image2D((2, 2), order='C'); gF = lambda: cuqi.geometry.Image2D((2, 2), order='F')
+    model = LinearModel(fwd, adj, range_geometry=gC(), domain_geometry=gC())
+    x = c.vec('x', 4); y = c.vec('y', 4)
+    def check(tag, order):
+        T = model.T
+        Fx = model.forward(x); Aty = model.adjoint(y)
+        c.eq(f'{tag}:forward_is_the_documented_map', Fx, fwd(x.reshape((2, 2), order=order)).ravel(order=order))
+        c.eq(f'{tag}:adjoint_identity', np.sum(np.asarray(Fx) * y), np.sum(x * np.asarray(Aty)))
+        c.eq(f'{tag}:T_forward_is_adjoint', T.forward(y), Aty)
+        c.eq(f'{tag}:T_adjoint_is_forward', T.adjoint(x), Fx)
+        c.holds(f'{tag}:T_swaps_the_geometries', T.domain_geometry == model.range_geometry and T.range_geometry == model.domain_geometry)
+        c.eq(f'{tag}:T_matmul', T @ y, Aty)
+    check('as_constructed', 'C')
+    model.domain_geometry = gF(); model.range_geometry = gF()
+    check('after_reassigning_geometries', 'F')
+    model.domain_geometry = gC()
+    Fx = model.forward(x)
+    c.eq('mixed_orders:T_adjoint_is_forward', model.T.adjoint(x), Fx); c.eq('mixed_orders:T_forward_is_adjoint', model.T.forward(y), model.adjoint(y))
+
+
 def jobs(tier):
     J = []
     q = tier == 'quick'
@@ -137,6 +161,7 @@ def jobs(tier):
                 if 'Image2D' in rng and m % 2: continue
                 J.append(Job(f'LinearModel:{backing}:domain={dom}:range={rng}:m={m}:n={n}',
                              lambda c, b=backing, d=dom, r=rng, m=m, n=n: adjoint_identity(c, b, d, r, m, n), 'Pbox', FL, maxpaths=64))
+    J.append(Job('LinearModel:functions:history:geometries_reassigned_after_T_was_read', geometry_reassignment, 'Pbox', FL))
     for kind in ('identity', 'subsample', 'flip'):
         J.append(Job(f'LinearModel:functions:{kind}_view', lambda c, k=kind: view_models(c, k), 'Pbox', FL))
     TPF = ['cuqi.testproblem._testproblem:_proj_forward_2D', 'cuqi.testproblem._testproblem:_proj_backward_2D']
